@@ -21,9 +21,12 @@
 (* sequence, a line is a sequence of characters; a text is a sequence of      *)
 (* lines (each terminated by "\n" in the file).                                *)
 (*                                                                            *)
-(* One behaviour = one case: Init chooses the case, RoundTrip computes the    *)
-(* oracle, the structural class of the case and the model predictions, and    *)
-(* emits them for replay on the real code.                                     *)
+(* One behaviour = one case: Init chooses a selector (family, format, block,  *)
+(* number of sequences), Pick chooses the case, RoundTrip computes the oracle, *)
+(* the outcomes the statement allows, the structural class of the case and the *)
+(* model predictions, and emits them for replay on the real code.              *)
+(* NB: a cfg file does not interpret escapes; the alphabets of the cfg files   *)
+(* hold ordinary characters only, the line end NL is defined in this module.   *)
 EXTENDS Naturals, Sequences, FiniteSets, TLC, Emit
 
 CONSTANTS
